@@ -129,6 +129,11 @@ def answerWith (io : Io) (req : List String) : Option (List String) :=
   | ["try_le", t, b] => do
       let T ← Ty.ofName t; let b ← io.unhex b
       pure [io.showPAns (pans (liftOverflow (tryFromLeBytes T b)))]
+  | ["try_le_fill", t, len, _] => do
+      let T ← Ty.ofName t; let len ← len.toNat?
+      match tryFromLeLen T len with
+      | .ok () => pure ["okfill", toString len, "1"]
+      | .error e => pure [io.showPAns (.err (errFacts (.overflow e)))]
   | ["consts", t] => do
       let T ← Ty.ofName t
       let n ← T.fixedN
